@@ -534,6 +534,7 @@ func runC17(ctx *core.Ctx) {
 	c17Lattice(ctx)
 	c17WorkdirLattice(ctx)
 	c17ConfigLattice(ctx)
+	c17ProfileLattice(ctx)
 	ctx.Res.Exhaustive = true
 
 	// 2. seeded random worlds: documented order (spec oracle applies), then any order (model correspondence + invariants)
@@ -554,6 +555,16 @@ func runC17(ctx *core.Ctx) {
 	for i := 0; i < ctx.Pick(1500, 60000); i++ {
 		a := c17Glue(ctx, c17Random(ctx.Rng, i%3 != 0, false))
 		ctx.Count("glue")
+		ctx.Add("c17load", a.wire())
+	}
+	// 2b'. round 6: WithProfiles / WithDefaultProfiles anywhere among the other options (the last call decides; the
+	// fallback reads COMPOSE_PROFILES of the project environment as it is at that point)
+	for i := 0; i < ctx.Pick(1500, 40000); i++ {
+		a := c17ProfileGlue(ctx, c17Random(ctx.Rng, i%3 != 0, false))
+		if i%4 == 0 {
+			a = c17Glue(ctx, a)
+		}
+		ctx.Count("profile-glue")
 		ctx.Add("c17load", a.wire())
 	}
 	// 2c. the loader-level entry: SetProjectName(name, imperative) × SkipInterpolation × nil/non-nil environment
